@@ -65,7 +65,7 @@ Done  == pc > Len(PhaseOrder)
 Final == Obs(case, st)
 Broken(prefixed) == Done /\ \E i \in 1..Len(Labels(case, Final)) : Labels(case, Final)[i] \in prefixed
 
-X1L == {"X1/exit-code-follows-mapping"}
+X1L == {"X1/run-ends-by-itself", "X1/exit-code-follows-mapping"}
 X2L == {"X2/meta-json-written", "X2/meta-exit-code=process", "X2/meta-start<=end", "X2/meta-config-recreates-run"}
 X3L == {"X3/log-file-exists", "X3/log-closed", "X3/log-fully-readable"}
 X4L == {"X4/lock-released"}
